@@ -8,10 +8,34 @@ fn len_ok(_n: usize) -> bool {
     true
 }
 
+/// the `rank` vector, read through the derived `Debug` (`UnionFind { parent: [..], rank: [..] }`) —
+/// the only public observation of it. Not determined by the property: the driver compares it with the
+/// mirror model only (MODELDIFF), which ties the model's `rank` field — and the proved bound
+/// `2^rank <= len` that keeps the `u8` from overflowing — to the real one.
+fn ranks_of<K: IndexType>(uf: &UnionFind<K>) -> String {
+    let s = format!("{:?}", uf);
+    match s.rfind("rank: [") {
+        Some(i) => {
+            let t = &s[i + 7..];
+            let body = t[..t.find(']').unwrap_or(t.len())].trim();
+            if body.is_empty() {
+                "-".into()
+            } else {
+                body.split(',').map(|x| x.trim()).collect::<Vec<_>>().join(",")
+            }
+        }
+        None => "?".into(),
+    }
+}
+
 fn run_case<K: IndexType>(ctx: &mut Ctx, rng: &mut Rng, case: u64, w: u32) {
     ctx.raw(&format!("case {} w={}", case, w));
-    let max_elems: usize = if w == 8 { 256 } else { usize::MAX };
     let kmax: usize = <K as IndexType>::max().index();
+    // CAPACITY of the index type: `kmax + 1` elements (u8: 256) work and are exercised; `new_set` on a
+    // full structure (and `new(n)` beyond it) wraps `K::new` and is outside the property's quantifier
+    // ("u8 up to its 256-element capacity") — the generator never goes there, and the driver checks it
+    // (`SPECFAIL generator left the proved range`).
+    let max_elems: usize = kmax.saturating_add(1);
     // initial size: mostly small; for u8 sometimes right at the capacity
     let n0 = match rng.below(10) {
         0 => 0,
@@ -27,6 +51,23 @@ fn run_case<K: IndexType>(ctx: &mut Ctx, rng: &mut Rng, case: u64, w: u32) {
         _ => UnionFind::new(n0),
     };
     ctx.line(&format!("new {}", n0), "ok");
+    // at-capacity family (u8 only): fill the structure to exactly 256 elements, then use the last ones
+    if w == 8 && n0 >= 250 && rng.chance(60) {
+        while uf.len() < max_elems {
+            let r = uf.new_set();
+            ctx.line("new_set", &r.index().to_string());
+        }
+        let n = uf.len();
+        for _ in 0..(2 + rng.below(4)) {
+            let (x, y) = (n - 1 - rng.below(3), rng.below(n));
+            let (x, y) = if rng.chance(50) { (x, y) } else { (y, x) };
+            let r = catch(|| uf.union(K::new(x), K::new(y)));
+            ctx.line(&format!("union {} {}", x, y), &r.map(|v| v.to_string()).unwrap_or("panic".into()));
+        }
+        let r = catch(|| list((0..uf.len()).map(|i| uf.find(K::new(i)).index())));
+        ctx.line("dump", &r.unwrap_or_else(|| "panic".into()));
+        ctx.line("ranks", &ranks_of(&uf));
+    }
     // deep-tree family: balanced "tournament" merges build trees of depth log2(n) (union by rank only
     // grows the depth when two trees of equal rank meet), which random unions almost never do
     if n0 >= 8 && len_ok(n0) && rng.chance(35) {
@@ -48,6 +89,7 @@ fn run_case<K: IndexType>(ctx: &mut Ctx, rng: &mut Rng, case: u64, w: u32) {
         ctx.line("dump", &r.unwrap_or_else(|| "panic".into()));
         let r = catch(|| list(uf.clone().into_labeling().iter().map(|k| k.index())));
         ctx.line("labeling", &r.unwrap_or("panic".into()));
+        ctx.line("ranks", &ranks_of(&uf));
     }
     // hub family (widths >= 16 only): one root absorbs several hundred classes, always as the first
     // argument. With union by rank the hub's rank stays 1; a rank that grows with every absorption
@@ -69,6 +111,7 @@ fn run_case<K: IndexType>(ctx: &mut Ctx, rng: &mut Rng, case: u64, w: u32) {
         }
         let r = catch(|| list((0..uf.len()).map(|i| uf.find(K::new(i)).index())));
         ctx.line("dump", &r.unwrap_or_else(|| "panic".into()));
+        ctx.line("ranks", &ranks_of(&uf));
     }
     let nops = 5 + rng.below(if n0 > 30 { 120 } else { 55 });
     let dump = |ctx: &mut Ctx, uf: &UnionFind<K>| {
@@ -178,9 +221,13 @@ fn run_case<K: IndexType>(ctx: &mut Ctx, rng: &mut Rng, case: u64, w: u32) {
         }
         if mutating || rng.chance(20) {
             dump(ctx, &uf);
+            if rng.chance(25) {
+                ctx.line("ranks", &ranks_of(&uf));
+            }
         }
     }
     dump(ctx, &uf);
+    ctx.line("ranks", &ranks_of(&uf));
     let r = catch(|| list(uf.into_labeling().iter().map(|k| k.index())));
     ctx.line("labeling", &r.unwrap_or("panic".into()));
 }
